@@ -280,7 +280,7 @@ prop('C18',
      'DESIGN.md 3.8 (EX1, WL1), 4 C18')
 
 prop('C19',
-     [MI.uk, R2.uk5, SC.sc5, PS.ps1, R3.sp5, R3.mc1, R3.rs1, R4.um1, R4.sh1, R4.exw, R4.acc1, R4.st1],
+     [MI.uk, R2.uk5, SC.sc5, PS.ps1, R3.sp5, R3.mc1, R3.rs1, R4.um1, R4.sh1, R4.exw, R4.acc1, R4.st1, R5.uk7],
      'recorded only when undeclared at the time of use, only in text mode, once, reset per '
      'document, printed one per line (UK); what is declared does not depend on earlier calls '
      '(PS1)',
